@@ -357,8 +357,19 @@ func (vfs *MemFS) Link(oldname, newname string) error {
 		return &os.LinkError{Op: op, Old: oldname, New: newname, Err: err}
 	}
 
+	part := pi.Part()
+	if nParent.children[part] != nil {
+		// The new name has been created since the path was walked.
+		err := vfs.err.FileExists
+		if vfs.OSType() == avfs.OsWindows {
+			err = avfs.ErrWinAlreadyExists
+		}
+
+		return &os.LinkError{Op: op, Old: oldname, New: newname, Err: err}
+	}
+
 	c.mu.Lock()
-	nParent.addChild(pi.Part(), c)
+	nParent.addChild(part, c)
 
 	c.nlink++
 	c.mu.Unlock()
